@@ -163,3 +163,70 @@ void h_rule_set_new(void) {
   orc_rule_set_new(s, t, nondet_uint());
   REACH();
 }
+
+/* ================================================================ C19: target registry and default target */
+#ifndef NT
+#define NT 4
+#endif
+static OrcTarget g_tg[NT];
+static char g_tname[NT][8];
+static void mk_targets(void) {
+  int n = nondet_int(); __CPROVER_assume(n >= 0 && n <= NT);
+  n_targets = n;
+  for (int i = 0; i < NT; i++) {
+    for (int c = 0; c < 7; c++) g_tname[i][c] = nondet_char();
+    g_tname[i][7] = 0;
+    g_tg[i].name = g_tname[i];
+    g_tg[i].executable = nondet_bool();
+    targets[i] = (i < n) ? &g_tg[i] : NULL;
+  }
+  /* default_target is whatever registration left there: NULL or one of the registered executable targets */
+  int d = nondet_int(); __CPROVER_assume(d >= -1 && d < n);
+  default_target = (d < 0) ? NULL : &g_tg[d];
+  __CPROVER_assume(d < 0 || g_tg[d].executable);
+}
+static int spec_streq8 (const char *a, const char *b) {
+  for (int k = 0; k < 8; k++) { if (a[k] != b[k]) return 0; if (a[k] == 0) return 1; }
+  return 0;
+}
+
+/* registration: appended; the default becomes the most recently registered executable target */
+void orc_target_register (OrcTarget *target)
+__CPROVER_requires(n_targets >= 0 && n_targets < ORC_N_TARGETS && __CPROVER_r_ok(target, sizeof(*target)))
+__CPROVER_assigns(targets[n_targets], n_targets, default_target)
+__CPROVER_ensures(n_targets == __CPROVER_old(n_targets) + 1 && targets[n_targets - 1] == target)
+__CPROVER_ensures(default_target == (target->executable ? target : __CPROVER_old(default_target)));
+void h_target_register(void) {
+  n_targets = nondet_int(); default_target = nondet_bool() ? NULL : &g_tg[0];
+  OrcTarget *t = malloc(sizeof(*t)); __CPROVER_assume(t != NULL);
+  orc_target_register(t);
+  REACH();
+}
+
+/* by name: the first registered target with exactly that name, NULL for an unknown name */
+OrcTarget * orc_target_get_by_name (const char *name)
+__CPROVER_requires(n_targets >= 0 && n_targets <= NT && name != NULL && __CPROVER_r_ok(name, 8))
+__CPROVER_assigns()
+__CPROVER_ensures(
+  (n_targets > 0 && spec_streq8(name, targets[0]->name)) ? __CPROVER_return_value == targets[0] :
+  (n_targets > 1 && spec_streq8(name, targets[1]->name)) ? __CPROVER_return_value == targets[1] :
+  (n_targets > 2 && spec_streq8(name, targets[2]->name)) ? __CPROVER_return_value == targets[2] :
+  (n_targets > 3 && spec_streq8(name, targets[3]->name)) ? __CPROVER_return_value == targets[3] :
+  __CPROVER_return_value == NULL);
+void h_target_get_by_name(void) {
+  mk_targets(); char *nm = malloc(8); __CPROVER_assume(nm != NULL); nm[7] = 0;
+  orc_target_get_by_name(nm);
+  REACH();
+}
+
+/* the default compile target: never a target this CPU cannot execute (last sentence of C19); the environment copy is
+ * released (C16); an executable override wins, anything else falls back to the registered default */
+OrcTarget * orc_target_get_default (void)
+__CPROVER_requires(n_targets >= 0 && n_targets <= NT)
+__CPROVER_requires(default_target == NULL || default_target->executable)
+__CPROVER_assigns(g_env)
+__CPROVER_frees(g_env)
+__CPROVER_ensures(__CPROVER_return_value == NULL || __CPROVER_return_value->executable)
+__CPROVER_ensures(g_env == NULL ==> __CPROVER_return_value == default_target)
+__CPROVER_ensures(g_env == NULL || __CPROVER_was_freed(g_env));
+void h_target_get_default(void) { mk_targets(); orc_target_get_default(); REACH(); }
